@@ -158,6 +158,93 @@ def run_probe(probe, cases, delay_us, par):
     return [o[0] for o in run_jobs(probe, [(n, [sc]) for n, sc in cases], delay_us, par)]
 
 
+def gen_stacks(run):
+    """real stacks RetryMiddleware(outer) . RetryMiddleware(n) . [LoggingMiddleware] . RetryMiddleware(inner) over the
+    scripted wire, compared with Model/RetryStack.v; scripts are padded to the stack's whole budget of wire calls"""
+    jobs = []
+    ks = [None, 0, 1, 2]
+    per = 6 if run.thorough() else 2
+    for outer in ks:
+        for inner in ks:
+            for n in (0, 1, 2):
+                for login in (False, True):
+                    if outer is None and inner is None and not login:
+                        continue        # the single-instance cases above
+                    budget = (n + 1) * ((outer or 0) + 1) * ((inner or 0) + 1)
+                    scs = [[run.rng.choice(FAILING) for _ in range(budget)]]                      # exhausts the whole stack
+                    j = run.rng.randint(0, budget - 1)
+                    scs.append([run.rng.choice(FAILING) for _ in range(j)] + [run.rng.choice(["200", "404", "302"])])
+                    for _ in range(per):
+                        L = run.rng.randint(0, budget)
+                        scs.append([run.rng.choice(EDGE if run.rng.random() < 0.4 else FAILING) for _ in range(L)])
+                    for sc in scs:
+                        jobs.append((outer, n, login, inner, pad(sc, budget - 1)))
+    return jobs
+
+
+def stack_profile(outer, inner, login):
+    t = []
+    if outer is not None:
+        t.append("outer%d" % outer)
+    if inner is not None:
+        t.append("inner%d" % inner)
+    if login:
+        t.append("login")
+    return "+".join(t) or "-"
+
+
+def coq_optz(x):
+    return "None" if x is None else "(Some (%d)%%Z)" % x
+
+
+def coq_scase(job, obs):
+    outer, n, login, inner, script = job
+    return ("{| s_outer := %s; s_n := (%d)%%Z; s_login := %s; s_inner := %s; s_script := [%s]; "
+            "s_obs := {| o_calls := %d; o_resp := %s; o_err := %s; o_sleeps := %d |} |}"
+            % (coq_optz(outer), n, "true" if login else "false", coq_optz(inner),
+               "; ".join(coq_outcome(i, t) for i, t in enumerate(script)),
+               obs["calls"], coq_opt(obs["resp"]), coq_opt(obs["err"]), obs["sleeps"]))
+
+
+def coq_smismatches(run, jobs, obs, tag):
+    shard = 300
+    res = []
+    for k in range((len(jobs) + shard - 1) // shard):
+        lo = k * shard
+        part = list(zip(jobs[lo:lo + shard], obs[lo:lo + shard]))
+        body = ("From Coq Require Import List ZArith NArith.\nFrom Shoot Require Import Model.Retry Model.RetryStack "
+                "Corr.RetryCorr Corr.RetryStackCorr.\nImport ListNotations.\nSet Printing Width 1000000.\n"
+                "Set Printing Depth 1000000.\nDefinition cases : list scase := [\n%s\n].\n"
+                "Definition M := Eval vm_compute in smismatches cases.\nPrint M.\n"
+                % ";\n".join(coq_scase(j, o) for j, o in part))
+        out = run.coq_eval("%s_%d" % (tag, k), body)
+        res.extend((lo + i, v) for i, v in lib.parse_coq_list_pairs(out, "M"))
+    return res
+
+
+def run_stacks(probe, jobs, delay_us, par):
+    return [o[0] for o in run_jobs(probe, [(n, [sc], stack_profile(outer, inner, login))
+                                            for outer, n, login, inner, sc in jobs], delay_us, par)]
+
+
+def check_stacks(run, probe):
+    """returns (jobs, first-pass mismatches, confirmed [(job, obs)])"""
+    jobs = gen_stacks(run)
+    obs = run_stacks(probe, jobs, 2000, 16)
+    mism = coq_smismatches(run, jobs, obs, "c20stack")
+    pending = [i for i, _ in mism]
+    last = {}
+    for attempt in range(2):
+        if not pending:
+            break
+        sub = [jobs[i] for i in pending]
+        o2 = run_stacks(probe, sub, 20000, 8)
+        m2 = coq_smismatches(run, sub, o2, "c20stackre_%d" % attempt)
+        last = {pending[j]: o2[j] for j, _ in m2}
+        pending = [pending[j] for j, _ in m2]
+    return jobs, obs, mism, [(jobs[i], last[i]) for i in pending]
+
+
 def coq_mismatches(run, cases, obs, tag):
     """evaluate the comparison inside Coq, in shards; returns list of (index, verdict)"""
     shard = 400
@@ -187,7 +274,7 @@ def scale_profile(prof, k):
 
 
 def main(run):
-    proof_ok = run.prove("Properties/C20.v", ["Corr/RetryCorr.v"])
+    proof_ok = run.prove("Properties/C20.v", ["Corr/RetryCorr.v", "Corr/RetryStackCorr.v"])
     probe = run.build_helper("rtprobe")
     cases, exhaustive_part = gen_cases(run)
     run.log("cases:", len(cases))
@@ -237,6 +324,18 @@ def main(run):
                   "earlier_requests_through_the_same_middleware": (groups[job_of[idx][0]][1][:job_of[idx][1]] if idx in job_of else []),
                   "how": "go run harness/go/cmd/rtprobe <<< '0 %d 20000 %s %s'" % (n, ",".join(sc), scale_profile(prof_of.get(idx, "-"), 10))}
         run.violation(replay, no_input=(v != 2))
+    # stacks of middlewares against Model/RetryStack.v
+    sjobs, sobs, smism, sconfirmed = check_stacks(run, probe)
+    for (outer, n, login, inner, sc), o in sconfirmed[:5]:
+        budget = (n + 1) * ((outer or 0) + 1) * ((inner or 0) + 1)
+        run.violation({"kind": "correspondence-broken",
+                       "theorem": "C20_stack_refines_model / C20_nested_at_most_product / C20_logging_commutes",
+                       "correspondence": "L1:C20:rtprobe stack vs Model/RetryStack.v",
+                       "stack": {"outer": outer, "n": n, "logging_inside": login, "inner": inner},
+                       "script": sc, "observed": o, "wire_call_budget": budget,
+                       "how": "go run harness/go/cmd/rtprobe <<< '0 %d 20000 %s %s'" % (n, ",".join(sc), stack_profile(outer, inner, login))},
+                      no_input=(o["calls"] <= budget))
+    confirmed = confirmed + sconfirmed
     if not proof_ok and not confirmed:
         run.proof_failure_violation()
     # second tie: the model regenerated from retry.go by the translator, bridged to Model/Retry.v inside Coq
@@ -271,7 +370,14 @@ def main(run):
         "calls_distribution": {str(k): v for k, v in sorted(dist.items())},
         "mismatches_first_pass": len(mism),
         "mismatches_confirmed_on_slow_rerun": len(confirmed),
-        "timing_mismatches_not_reproduced": len(mism) - len(confirmed),
+        "timing_mismatches_not_reproduced": len(mism) - (len(confirmed) - len(sconfirmed)),
+        "stack_cases": len(sjobs),
+        "stack_rule": ("RetryMiddleware(outer) . RetryMiddleware(n) . [LoggingMiddleware] . RetryMiddleware(inner) over the scripted wire, "
+                       "outer, inner in {none, 0, 1, 2}, n in 0..2, scripts padded to the stack's budget (outer+1)(n+1)(inner+1): "
+                       "one exhausting script, one late success and random ones per stack, compared with Model/RetryStack.v in Coq"),
+        "stack_calls_distribution": {str(k): sum(1 for o in sobs if o["calls"] == k) for k in sorted({o["calls"] for o in sobs})},
+        "stack_mismatches_first_pass": len(smism),
+        "stack_mismatches_confirmed_on_slow_rerun": len(sconfirmed),
         "translation_tie": tie,
         "samples": [{"n": n, "script": sc, "observed": o} for (n, sc), o in
                     [(cases[i], obs[i]) for i in (7, len(cases) // 2, len(cases) - 3)]],
@@ -289,8 +395,18 @@ def main(run):
 
 def replay(run, path):
     r = json.load(open(path))
-    run.prove("Properties/C20.v", ["Corr/RetryCorr.v"])
+    run.prove("Properties/C20.v", ["Corr/RetryCorr.v", "Corr/RetryStackCorr.v"])
     probe = run.build_helper("rtprobe")
+    if r.get("stack"):
+        st = r["stack"]
+        job = (st["outer"], st["n"], st["logging_inside"], st["inner"], r["script"])
+        o = run_stacks(probe, [job], 20000, 1)
+        m = coq_smismatches(run, [job], o, "c20stackreplay")
+        print("observed:", o[0], "verdict:", m)
+        if m:
+            print("VIOLATION property=C20 replay=%s" % path)
+            return 1
+        return 0
     cases = [(r["n"], r["script"])]
     pre = r.get("earlier_requests_through_the_same_middleware") or []
     obs = [run_jobs(probe, [(r["n"], pre + [r["script"]], scale_profile(r.get("profile") or "-", 10))], 20000, 1)[0][-1]]
